@@ -1,10 +1,14 @@
 // FaultyDataModel: decorator around the real datamodels that injects transient
-// error.execution failures at the n-th evaluation of chosen expressions
-// (DESIGN.md 4.3).
+// error.execution failures into datamodel calls made from executable content
+// (DESIGN.md 4.3, C07 mode T).
 #pragma once
 #include "recorder.h"
+#include "uscxml/plugins/DataModel.h"
 namespace h {
+extern std::vector<std::string> g_contentStack;
 void registerFaultyDataModels();
+uscxml::DataModel makeFaultyDataModel(uscxml::Interpreter& interp, const js::Value& faults, const std::string& tag);
+void contentLeft();
 void installFaultPlan(uscxml::Interpreter& interp, const js::Value& faults);
 void resetFaultStats();
 std::string faultStatsJSON();
